@@ -706,6 +706,15 @@ def check_final_canonical(prog, rep):
     finals = [s for s in ast.walk(f) if isinstance(s, ast.If) and any(
         isinstance(c, ast.Call) and isinstance(c.func, ast.Attribute) and
         c.func.attr == 'canonical_form' for b in s.body for c in ast.walk(b))]
+    if not finals:
+        # guard-clause form: `if <error small enough>: return` followed by the unconditional call
+        calls = [st for st in f.body if isinstance(st, ast.Expr) and isinstance(
+            st.value, ast.Call) and isinstance(st.value.func, ast.Attribute) and
+            st.value.func.attr == 'canonical_form']
+        if calls:
+            guards = [st for st in f.body if isinstance(st, ast.If) and st.lineno < calls[0].lineno
+                      and any(isinstance(b, ast.Return) for b in st.body)]
+            finals = guards[-1:]
     if len(finals) != 1:
         raise AnalysisError('_canonicalize: the guarded call of canonical_form() was not found')
     final = finals[0]
